@@ -14,6 +14,7 @@ Stub: `random` in pathplanner, sys.stdout, and (custom mode) the three call-back
 """
 import io
 import math
+import os
 import sys
 
 import numpy as np
@@ -134,7 +135,7 @@ class DrawSource:
         self.cfg = cfg
         self.run = run
         w = cfg["script"]
-        self.table = [(k, w.get(k, 0.0)) for k in ("uniform", "edge", "near", "duplicate", "lattice", "far", "into")]
+        self.table = [(k, w.get(k, 0.0)) for k in ("uniform", "edge", "near", "near_last", "duplicate", "lattice", "far", "into")]
         self.grid = cfg.get("grid", 4)
         self.kinds = {}
 
@@ -150,7 +151,7 @@ class DrawSource:
         r = self.r
         kind = pick_weighted(r, self.table)
         acc = self.run.accepted_units
-        if kind in ("near", "duplicate", "far", "into") and not self.run.node_list:
+        if kind in ("near", "near_last", "duplicate", "far", "into") and not self.run.node_list:
             kind = "uniform"
         self.run.faults["script_" + kind] += 1
         if kind == "uniform":
@@ -174,6 +175,17 @@ class DrawSource:
             n = math.sqrt(sum(x * x for x in v)) or 1.0
             tgt = [base[i] + rad * v[i] / n for i in range(3)] + list(base[3:6])
             return self._units(tgt)
+        if kind == "near_last":
+            # a step of connectable length away from the most recently inserted node: grows long chains (deep trees)
+            base = self.run.node_list[-1]
+            B = self.cfg["bounds"][0][1]
+            lo = self.cfg["min"] * 1.1
+            hi = max(lo * 1.5, min(self.cfg["max"] * 0.95, 0.4 * B))
+            rad = r.uniform(lo, hi)
+            v = [r.gauss(0, 1) for _ in range(3)]
+            n = math.sqrt(sum(x * x for x in v)) or 1.0
+            tgt = [base[i] + rad * v[i] / n for i in range(3)] + list(base[3:6])
+            return self._units(tgt)
         if kind == "far":
             tgt = [self.cfg["bounds"][i][0] if base[i] > 0 else self.cfg["bounds"][i][1] for i in range(6)]
             return self._units(tgt)
@@ -191,9 +203,9 @@ class DrawSource:
 
 # --------------------------------------------------------------------------- executor
 
-class _Null(io.TextIOBase):
-    def write(self, s):
-        return len(s)
+def _Null():
+    """A real file object on the null device (has .buffer, .fileno(), .flush() like a normal stdout)."""
+    return open(os.devnull, "w")
 
 
 class RRTRun:
@@ -308,15 +320,19 @@ class RRTRun:
                     p[3] = p[4] = p[5] = 0.0
                 return run._rec_gen(pp.PathNode(tm(p)))
 
+            ret = cfg["custom"].get("ret", {})
+            d_wrap = {"float": float, "np": np.float64, "arr1": lambda x: np.array([x])}[ret.get("dist", "float")]
+            c_wrap = {"bool": bool, "npbool": np.bool_, "arr0": lambda x: np.array(x)}[ret.get("coll", "bool")]
+
             def w_dist(a, b):
                 d = dfun(pos6(a), pos6(b))
                 run._rec_dist(a, b, d)
-                return d
+                return d_wrap(d)        # callers' distance functions return numpy scalars / one-element arrays too
 
             def w_coll(a, b):
                 res = cfun(pos6(a.getPosition()), pos6(b.getPosition()))
                 run._rec_coll(a, b, res)
-                return res
+                return c_wrap(res)      # ... and detectors built on np.any() return numpy bools
             call = lambda: pl.findPathGeneral(lambda: pl.generalGenerateTree(gen, w_dist, w_coll), self.goal)
 
         # running invariant at the moment of insertion (the R-tree pickles the node: this is what it freezes)
@@ -329,12 +345,13 @@ class RRTRun:
         graph.place = place
 
         old = sys.stdout
-        sys.stdout = _Null()
+        sys.stdout = null = _Null()
         try:
             try:
                 path = call()
             finally:
                 sys.stdout = old
+                null.close()
                 pp.random = _load()["real_random"]
                 self.consumed = list(self.rnd.consumed)
         except (HarnessError, Inconclusive, Violation):
@@ -355,12 +372,15 @@ class RRTRun:
         self.node_list.append(p)
         par = node.getParent()
         if par is None:
-            raise Violation("T1", "a parent-less node %r was inserted after the root" % (p,), {})
+            # connected after insertion (possible only on a store that keeps references): nothing to check *now*;
+            # the final tree is checked as a whole (T1: exactly one parent-less node there)
+            self.probes["placed_before_connected"] += 1
+            return
         pp6 = pos6(par.getPosition())
         self.at_insert[p] = (pp6, fl(node.getCost()))
         d = self.pure_dist(p, pp6)
         nc, pc = fl(node.getCost()), fl(par.getCost())
-        if abs(nc - (pc + d)) > 1e-9 * max(1.0, abs(nc)):
+        if not (math.isfinite(nc) and math.isfinite(pc)) or abs(nc - (pc + d)) > 1e-9 * max(1.0, abs(nc)):
             raise Violation("T3", "at insertion: cost %r != parent cost %r + distance %r" % (nc, pc, d),
                             {"when": "insertion"})
         if self.pure_coll(p, pp6):
@@ -406,8 +426,9 @@ class RRTRun:
             cost[p] = fl(n.getCost())
             par = n.getParent()
             parent[p] = None if par is None else pos6(par.getPosition())
-        if cost[self.origin6] != 0:
-            raise Violation("T3", "root cost is %r" % cost[self.origin6], {})
+        for p_, c_ in cost.items():
+            if not math.isfinite(c_):
+                raise Violation("T3", "node %r stores the cost %r" % (p_, c_), {})
         for p in pos:
             q = parent[p]
             if q is None:
@@ -446,12 +467,24 @@ class RRTRun:
         kmax = cfg["k"]
         classes = self.transitions
         have_place = any(ev[0] == "place" for ev in self.log.events)
+        rewired = set()
+        for p_, (pp_, c_) in self.at_insert.items():
+            if p_ in cost and (parent.get(p_) != pp_ or abs(cost[p_] - c_) > REL * max(1.0, abs(c_))):
+                rewired.add(p_)
+        if rewired:
+            P["nodes_rewired_after_insertion"] += len(rewired)
         for s, evs in segs:
             acc = False
             n0 = None
             d0 = None
             placed = any(e[0] == "place" and e[1] == s for e in evs)
-            evs = [e for e in evs if e[0] != "place"]
+            if placed:
+                # what happens after the sample has been inserted (path extraction ...) is not part of its insertion
+                evs = evs[:next(i for i, e in enumerate(evs) if e[0] == "place" and e[1] == s) + 1]
+            # call-backs that involve this sample, whatever the argument order (both are symmetric functions); anything
+            # else in the segment (path extraction after the last insertion, ...) is not about this insertion
+            evs = [e if e[1] == s else (e[0], e[2], e[1], e[3]) for e in evs
+                   if e[0] != "place" and (e[1] == s or e[2] == s)]
             if evs and evs[0][0] in ("dist", "coll") and evs[0][1] == s:
                 # the node this sample was tested against first (whatever the order of the two tests)
                 n0 = evs[0][2]
@@ -497,8 +530,6 @@ class RRTRun:
             # examined set
             examined = []
             for ev in evs:
-                if ev[1] != s:
-                    raise Violation("T6", "call-back invoked for %r while inserting %r" % (ev[1], s), {})
                 if ev[2] not in examined:
                     examined.append(ev[2])
             for c in examined:
@@ -510,11 +541,12 @@ class RRTRun:
             strict = set(tree[i] for i in np.nonzero(e2 < dk * (1 - 4 * REL) - 1e-300)[0])
             loose = set(tree[i] for i in np.nonzero(e2 <= dk * (1 + 4 * REL) + 1e-300)[0])
             exs = set(examined)
+            # Which neighbours must be examined is not part of the statement ("cheapest ... among the neighbours
+            # examined"): a planner may skip a neighbour that cannot win, or use a radius.  Recorded, not alarmed.
             if not strict <= exs:
-                raise Violation("T6", "inserting %r: %d of the %d strictly nearest tree nodes were not examined (limit %d)" % (
-                    s, len(strict - exs), len(strict), kmax), {})
+                P["k_nearest_not_all_examined"] += 1
             if not exs <= loose:
-                raise Violation("T6", "inserting %r: examined %d nodes outside the %d nearest" % (s, len(exs - loose), k), {})
+                P["examined_beyond_k_nearest"] += 1
             if len(loose) > k:
                 P["tie_at_kth_neighbour"] += 1
             if kmax > len(tree):
@@ -539,6 +571,14 @@ class RRTRun:
                 raise Violation("T4", "node %r was inserted although the edge to every examined neighbour collides" % (s,), {})
             # parent and cost as they were when the node was inserted (a later, legitimate re-wiring may change them)
             par_s, cost_s = self.at_insert.get(s, (parent[s], cost[s]))
+            if any(c in rewired for c in examined):
+                # a candidate's cost at that moment is not what the final tree says: the insertion cannot be re-judged
+                # (the final tree's own consistency, T1-T4, is still checked in full)
+                P["insertion_not_rejudged_after_rewire"] += 1
+                tree.append(s)
+                arr = np.vstack([arr, np.array(s)])
+                accepted.append(s)
+                continue
             if abs(cost_s - best) > REL * max(1.0, abs(best)):
                 raise Violation("T6", "node %r was inserted with cost %r via parent %r; the cheapest collision-free examined candidate gives %r via %r" % (
                     s, cost_s, par_s, best, best_c[0]), {})
@@ -576,11 +616,16 @@ class RRTRun:
         emin = float(e2.min())
         near = set(pos[i] for i in np.nonzero(e2 <= emin * (1 + 4 * REL) + 1e-300)[0])
         if chain[-1] not in near:
-            raise Violation("T7", "path leaves the tree at %r, but the node nearest the goal is %r" % (chain[-1], sorted(near)[0]), {})
+            # the statement does not say from which node the path leaves the tree (recorded)
+            P["path_exit_node_not_nearest_goal"] += 1
         if len(chain) == 1:
             P["path_goal_nearest_root"] += 1
         if len(chain) >= 4:
             P["path_depth_ge4"] += 1
+        if len(chain) >= 14:
+            P["path_depth_ge14"] += 1
+        if len(chain) >= 30:
+            P["path_depth_ge30"] += 1
         if cfg["iterations"] == 1:
             P["iterations_1"] += 1
         if cfg["iterations"] == 2:
@@ -642,16 +687,23 @@ def gen_trace(seed):
     if dmax < 2.5 * dmin:
         dmax = 100.0
     script = {"uniform": 6.0}
-    style = pick_weighted(r, [("plain", 3.0), ("mixed", 4.0), ("lattice", 2.0), ("adversarial", 2.0)])
+    style = pick_weighted(r, [("plain", 3.0), ("mixed", 4.0), ("lattice", 2.0), ("adversarial", 2.0), ("chain", 1.5)])
     if style == "mixed":
         script.update({"edge": 0.5, "near": 1.0, "duplicate": 0.5, "far": 0.3, "into": 1.0})
     elif style == "lattice":
         script = {"lattice": 6.0, "uniform": 1.0, "duplicate": 0.5}
         dmax = 100.0
+    elif style == "chain":
+        # long chains: small connection distance, steps from the newest node, few neighbours -> trees 10-100 levels deep
+        script = {"near_last": 8.0, "uniform": 0.5}
+        dmin = r.choice([0.05, 0.1])
+        dmax = r.choice([0.6, 1.0, 1.5])
+        iters = r.randint(20, 160)
     elif style == "adversarial":
         script = {"uniform": 2.0, "near": 3.0, "duplicate": 1.5, "into": 3.0, "edge": 1.0, "lattice": 1.0}
     cfg = {"mode": mode, "origin": origin, "bounds": bounds, "min": dmin, "max": dmax,
-           "k": pick_weighted(r, [(1, 1.0), (2, 1.0), (r.randint(3, 8), 3.0), (15, 2.0), (r.randint(9, 20), 2.0)]),
+           "k": (pick_weighted(r, [(1, 2.0), (2, 2.0), (3, 1.0)]) if style == "chain" else
+                 pick_weighted(r, [(1, 1.0), (2, 1.0), (r.randint(3, 8), 3.0), (15, 2.0), (r.randint(9, 20), 2.0)])),
            "dmode": 0, "iterations": iters, "script": script, "grid": r.choice([3, 4, 5]), "style": style,
            "goal": [round(r.uniform(-B, B), 3) for _ in range(3)] + [round(r.uniform(-rot, rot), 3) if rot else 0.0 for _ in range(3)]}
     n_boxes = pick_weighted(r, [(0, 2.0), (r.randint(1, 4), 4.0), (r.randint(5, 12), 2.0)])
@@ -674,7 +726,10 @@ def gen_trace(seed):
             if cfg["origin"][2] > B:
                 cfg["origin"][2] = B
         if cfg["dmode"] == 1 and dmax < 20:
-            cfg["max"] = 100.0       # arc distance includes rotation error
+            if style == "chain":
+                cfg["dmode"] = 0
+            else:
+                cfg["max"] = 100.0       # arc distance includes rotation error
     else:
         ck = pick_weighted(r, [("boxes", 4.0), ("spheres", 2.0), ("halfspace", 1.0), ("none", 1.0)])
         if ck == "boxes":
@@ -694,9 +749,14 @@ def gen_trace(seed):
         dist = r.choice(["euclid3", "euclid6", "weighted", "manhattan"])
         if rot == 0.0 and dist in ("euclid6", "weighted"):
             dist = "euclid3"
-        cfg["custom"] = {"dist": dist, "coll": coll, "planar": rot == 0.0 or r.random() < 0.3}
+        cfg["custom"] = {"dist": dist, "coll": coll, "planar": rot == 0.0 or r.random() < 0.3,
+                         "ret": {"dist": r.choice(["float", "float", "np", "arr1"]),
+                                 "coll": r.choice(["bool", "npbool", "npbool", "arr0"])}}
         if dist in ("euclid6", "weighted") and cfg["max"] < 20:
-            cfg["max"] = 100.0
+            if style == "chain":
+                cfg["custom"]["dist"] = "euclid3"
+            else:
+                cfg["max"] = 100.0
     cfg["budget"] = 200 * iters + 600
     return {"property": PROP, "config": cfg, "draw_seed": seed}
 
@@ -729,7 +789,7 @@ ASSUMPTIONS = [
 EXPECTED_PROBES = ["rejected_for_min", "rejected_for_max", "rejected_for_collision", "rejected_exact_duplicate",
                    "tie_in_first_nearest", "tie_at_kth_neighbour", "parent_not_nearest", "cheaper_candidate_collides",
                    "k_exceeds_tree_size", "terrain_generated", "iterations_1", "iterations_2", "path_goal_nearest_root",
-                   "path_depth_ge4", "custom_callbacks", "builtin_pipeline", "arc_distance_mode"]
+                   "path_depth_ge4", "path_depth_ge14", "path_depth_ge30", "custom_callbacks", "builtin_pipeline", "arc_distance_mode"]
 
 
 def warmup():
